@@ -42,6 +42,9 @@ CHECKS = {
     'C06': dict(category='model_checking', technique='exhaustive enumeration of a type-directed pattern catalogue x defaults x storage layouts through every operation and every same-typed operand pair, plus explicit-state BFS of the <patterned, dense> product machine over operation compositions; representation invariant asserted on every construction',
                 text='Every patterned tensor of the catalogue (100 index-type tuples, 606 patterns incl. shared axes and sum/product nestings) under six defaults and three storage layouts is pushed through every unary, scalar, structural, indexing, reshape/view and iteration operation, every ordered same-typed pair through every binary/ternary operation, and compositions of operations are explored as a product machine whose second component is the dense tensor; each result must denote exactly the tensor torch computes on to_dense() (NaN-aware, bit-exact; 8 ulp for div), sources must stay untouched, reshape must succeed on merges, and every PatternedTensor constructed inside the library must satisfy the representation invariant.',
                 note='torch is the trusted base for dense semantics. The IEEE-special default slice (operations whose default is computed with Python math) is excluded per operation and counted in evidence.excluded_not_judged.', design='3/C06'),
+    'C13': dict(category='exploration', technique='exhaustive enumeration of all ordered same-typed pattern pairs x default pairs x physical contents (all {0,1,1.5}-assignments for small tensors, copy-with-single-perturbation otherwise) x tolerances against torch.equal/allclose on the dense tensors; all key-presence patterns for MultiTensor.allclose',
+                text='For every ordered pair of same-typed patterns of the 606-pattern catalogue, seven default pairs and the enumerated contents, PatternedTensor.equal / allclose (three tolerance settings, both argument orders), equal_default / allclose_default and the representation-insensitivity clauses (clone, densification, re-patterned copy) are compared with torch on to_dense(); MultiTensor.allclose is run on all 64x64 presence/value combinations of two 3-key MultiTensors at tol 0 and 0.1 in the Real and Log semirings against "absent = semiring zero".',
+                note='torch.equal / torch.allclose are the specification. Bounds in evidence.', design='3/C13'),
 }
 
 ALL = ['C%02d' % i for i in range(1, 21)]
